@@ -101,11 +101,11 @@ def parse_long_sections(res):
     if res['students'] is None or res['projects'] is None or res['lecturers'] is None:
         raise ParseError('a listing section is missing')
     for line in res['students']:
-        m = re.match(r'^s_(\d+): p_(\d+) \(l_(\d+)\)\s*$', line)
+        m = re.match(r'^\s*s_(\d+):\s+p_(\d+)\s+\(l_(\d+)\)\s*$', line)
         if m:
             sid, val = int(m.group(1)), (int(m.group(2)), int(m.group(3)))
         else:
-            m = re.match(r'^s_(\d+) no assignment\s*$', line)
+            m = re.match(r'^\s*s_(\d+):?\s+no\s+assignment\s*$', line)
             if not m:
                 raise ParseError('student line %r' % line)
             sid, val = int(m.group(1)), None
@@ -113,12 +113,12 @@ def parse_long_sections(res):
             raise ParseError('student %d listed twice' % sid)
         out['students'][sid] = val
     for line in res['projects']:
-        m = re.match(r'^p_(\d+) \(l_(\d+)\): (.*?)\s+(\d+)/(\d+)\s*$', line)
+        m = re.match(r'^\s*p_(\d+)\s+\(l_(\d+)\):\s*(.*?)\s+(\d+)\s*/\s*(\d+)\s*$', line)
         if not m:
             raise ParseError('project line %r' % line)
         pid = int(m.group(1))
         body = m.group(3).strip()
-        if body == 'no assignment':
+        if re.sub(r'\s+', ' ', body) == 'no assignment':
             studs = []
         else:
             studs = []
@@ -132,15 +132,15 @@ def parse_long_sections(res):
         out['projects'][pid] = {'lec': int(m.group(2)), 'students': studs,
                                 'occ': int(m.group(4)), 'cap': int(m.group(5))}
     for line in res['lecturers']:
-        m = re.match(r'^l_(\d+): (.*?)\s+(\d+)/(\d+) \((-?\d+)\)\s*$', line)
+        m = re.match(r'^\s*l_(\d+):\s*(.*?)\s+(\d+)\s*/\s*(\d+)\s+\((-?\d+)\)\s*$', line)
         if not m:
             raise ParseError('lecturer line %r' % line)
         lid = int(m.group(1))
         body = m.group(2).strip()
         pairs = []
-        if body != 'no assignment':
-            items = re.findall(r's_(\d+) \(p_(\d+)\)', body)
-            if re.sub(r's_\d+ \(p_\d+\)', '', body).strip():
+        if re.sub(r'\s+', ' ', body) != 'no assignment':
+            items = re.findall(r's_(\d+)\s+\(p_(\d+)\)', body)
+            if re.sub(r's_\d+\s+\(p_\d+\)', '', body).strip():
                 raise ParseError('lecturer line %r' % line)
             pairs = [(int(a), int(b)) for a, b in items]
         if lid in out['lecturers']:
@@ -195,15 +195,20 @@ def parse_bf(text):
 _PAIRTXT = re.compile(r'\(s(\d+) p(\d+) rs(\d+) l(\d+)(?: rl(\d+))?\)')
 
 
-def parse_debug(text):
-    """Parse get_debug(): the 0/1 variable rows and the Model instance block."""
+def parse_debug(text, nrows=None):
+    """Parse get_debug(): the Model instance block (one row per student).  With nrows
+    given, exactly that many lines after the block title are read, so additional
+    sections an implementation may append afterwards are ignored."""
     if not isinstance(text, str):
         raise ParseError('debug is %s, not str' % type(text).__name__)
     if 'Model instance information:' not in text:
         raise ParseError('no "Model instance information:" block')
     head, tail = text.split('Model instance information:', 1)
     rows = []
-    for line in tail.split('\n')[1:]:
+    body = tail.split('\n')[1:]
+    if nrows is not None:
+        body = body[:nrows]
+    for line in body:
         if not line.strip():
             rows.append([])
             continue
@@ -213,7 +218,7 @@ def parse_debug(text):
             raise ParseError('debug pair line %r' % line)
         rows.append([tuple(int(x) if x != '' else None for x in it) for it in items])
     # the final newline leaves exactly one empty string after split
-    if rows and rows[-1] == []:
+    if nrows is None and rows and rows[-1] == []:
         rows.pop()
     return {'rows': rows, 'head': head}
 
